@@ -21,11 +21,11 @@ META["C09"] = {
     "level": "exploration",
     "tiers": {
         "quick": {"shards": 1, "deadline_s": 120,
-                  "bounds": "all weight vectors of length 1..4 over {0,1,2,3,0.1,1/3,1e-3} x every critical canonical value x 3 types; all 2^24 float canonical values for 4 weight vectors; critical values as channel draw inside multi_channel_iteration for all vectors over {0,1,2,3}"},
+                  "bounds": "all weight vectors of length 1..4 over {0,1,2,3,0.1,1/3,1e-3} x every critical canonical value x 3 types; vectors of 5..48 channels (equal, increasing, alternating zeros, one zero at every position); all 2^24 float canonical values for 4 weight vectors; critical values as channel draw inside multi_channel_iteration for all vectors over {0,1,2,3}"},
         "thorough": {"shards": 1, "deadline_s": 900,
                      "bounds": "as quick, with the full 2^24 value sweep for 71 weight vectors"},
     },
-    "rule": "nested enumeration of weight vectors x critical generator outputs (0, 2^-64 neighbours, every cumulative boundary +-3 steps on the 2^-64 lattice and on the lattice of T, largest value below 1); non-trivial = the vector contains a disabled channel; distinct = distinct (type, vector, raw output)",
+    "rule": "nested enumeration of weight vectors x critical generator outputs (0, 2^-64 neighbours, every cumulative boundary +-3 steps on the 2^-64 lattice and +-{0,1,2,3,16,64,256,1024} steps on the lattice of T, largest value below 1); non-trivial = the vector contains a disabled channel; distinct = distinct (type, vector, raw output)",
     "assumptions": [
         "the canonical number for a raw 64-bit output is computed by calling std::generate_canonical on a copy of the engine (same standard function the library calls)",
         "a canonical number within 8 epsilon of a cumulative boundary may select either neighbour (closed vs half-open is left open by the property); a disabled channel is never accepted",
@@ -52,7 +52,7 @@ META["C07"] = {
     "level": "model_checking",
     "tiers": {
         "quick": {"shards": 15, "deadline_s": 200,
-                  "bounds": "1-d grids with B in {2,3,4,5,8}; initial states: uniform, all strictly increasing eighth-lattice grids (B<=4), one grid with a 1e-6 bin; alpha in {0,0.5,1,1.5,3}; depth 1 with the full data alphabet {0,1,3,1e-30,1e30,denorm_min,max/(4B),max/2}^B (B<=4; patterns for B=5,8); depth 2 (B<=4) over {0,1,1e6}^B; vegas_icdf on every state for 0, 2^-64, k/B and neighbours, largest below 1 and exactly 1; 2-d vs 1-d differential; 10-iteration real runs on peaks of width 1e-1..1e-4; 6-iteration mpi_vegas runs under the MPI shim with 2 and 3 ranks; the uniform default grid and one refinement of it for every bin count 2..512"},
+                  "bounds": "1-d grids with B in {2,3,4,5,8}; initial states: uniform, all strictly increasing eighth-lattice grids (B<=4), one grid with a 1e-6 bin; alpha in {0,0.5,1,1.5,3}; depth 1 with the full data alphabet {0,1,3,1e-30,1e30,denorm_min,max/(4B),max/2}^B (B<=4; patterns for B=5,8); depth 2 (B<=4) over {0,1,1e6}^B; vegas_icdf on every state for 0, 2^-64, k/B and neighbours, largest below 1 and exactly 1; 2-d vs 1-d differential; 10-iteration real runs on peaks of width 1e-1..1e-4; 6-iteration mpi_vegas runs under the MPI shim with 2 and 3 ranks; the uniform default grid and one refinement of it for every bin count 2..512; vegas_icdf weights in 5..100 dimensions"},
         "thorough": {"shards": 15, "deadline_s": 1500,
                      "bounds": "as quick with depth 3 for B<=5, depth 2 for B=8 (frontier capped at 300000 states per level, reported) and 20-iteration real runs"},
     },
@@ -115,7 +115,7 @@ META["C05"] = {
     "parts": 3,
     "tiers": {
         "quick": {"shards": 3, "deadline_s": 300,
-                  "bounds": "codec: every exponent (long double: every 64th plus the extremes and the middle) x mantissa in {0,1,all ones,0x55..,0xAA..,every single bit} x both signs through 9 writing sites; structure: one-field-at-a-time sweeps and the 2^8 product of the two smallest values over results 0..2, distributions 0..2, bins 1..3x1..2, channels 1..3, dimensions 1..2, grid bins 2..3, 10 names (empty, blanks, leading/trailing blanks, tab, '#x'), counters {0,1,2^32,2^64-1}, 9 engines advanced by {0,1,7,1000}; 3 types"},
+                  "bounds": "codec: every exponent (long double: every 64th plus the extremes and the middle) x mantissa in {0,1,all ones,0x55..,0xAA..,every single bit} x both signs through 9 writing sites; structure: one-field-at-a-time sweeps and the 2^8 product of the two smallest values over results 0..2, distributions 0..2, bins 1..3x1..2, channels {1,2,3,7,9,10,11,12} (user weights, a weight raised to the floor, uniform default), dimensions 1..4, grid bins 2..3, 10 names (empty, blanks, leading/trailing blanks, tab, '#x'), counters {0,1,2^32,2^64-1}, 9 engines advanced by {0,1,7,1000}; 3 types"},
         "thorough": {"shards": 16, "deadline_s": 3000,
                      "bounds": "as quick with every long double exponent, plus every finite float bit pattern (2^32 - 2^24) through vegas_pdf, mc_result, vegas_result and multi_channel_result"},
     },
@@ -147,7 +147,7 @@ META["C06"] = {
     "parts": 3,
     "tiers": {
         "quick": {"shards": 3, "deadline_s": 300,
-                  "bounds": "PLAIN (d=2), VEGAS (4 bins, d=2, alpha 1.5), MULTI-CHANNEL (3 channels, beta 1/2, min 0.01); 3 adaptive iterations of 6 calls; every non-empty subset of the 6 points of one iteration (x3 iterations); every assignment of {NaN,+inf,-inf} (weight faults: also zero densities) for subsets of size <= 4, uniform kinds above; fault from the integrand value, the value handed to projector.add, or the multi-channel weight; with and without distributions (one 1-d with 3 bins and one 2-d with 2x2 bins); 3 types"},
+                  "bounds": "PLAIN (d=2), VEGAS (4 bins, d=2, alpha 1.5), MULTI-CHANNEL (3 channels, beta 1/2, min 0.01); 3 adaptive iterations of 6 calls; every non-empty subset of the 6 points of one iteration (x3 iterations); every assignment of {NaN,+inf,-inf} (weight faults: also zero densities, and - with user weights that disable a channel - a NaN density of the disabled channel only) for subsets of size <= 4, uniform kinds above; fault from the integrand value, the value handed to projector.add, or the multi-channel weight; with and without distributions (one 1-d with 3 bins and one 2-d with 2x2 bins); 3 types"},
         "thorough": {"shards": 3, "deadline_s": 1800, "bounds": "as quick with 8 sampled points per iteration (every non-empty subset of 8)"},
     },
     "rule": "every fault subset x kind assignment is run on the real integrators and compared with its pair (same script, zero returned at the faulted points) on the canonical field description with non_zero_calls and bin counters masked; non-trivial = every case (at least one fault); distinct = distinct (configuration, iteration, subset, kinds)",
@@ -239,7 +239,7 @@ META["C01"] = {
     "parts": 3,
     "tiers": {
         "quick": {"shards": 3, "deadline_s": 400,
-                  "bounds": "PLAIN d<=3, lattices 1,2,4,6 per dimension; VEGAS B in {2,3,4,5,8}: uniform, all strictly increasing eighth-lattice grids (B<=4) and all grids reached by BFS over real adaptation (4 adapting integrands x alpha in {0,0.5,1.5,3}, depth 3), lattices B x {1,2,3}, d=1 all grids, d=2 products of a subset; MULTI-CHANNEL C<=3 channels with splits 1/4,1/2,3/4: every composition of 8 into weights incl. zeros (sentinel density 1e30 in disabled channels), normalised / through the checkpoint constructor / unnormalised x3 / with an integrand that reads point.weight() itself / with a channel map that keeps state between its two requests, jacobian in {1,2,1/4,1+y}, d<=2, lattice 12^d x 8; adapted weights reached by BFS over real refinement (3 integrands x beta x min, depth 3) in stratified form; all multilinear integrands over {1, y, 2-3y, -1+4y}; 3 types"},
+                  "bounds": "PLAIN d<=3, lattices 1,2,4,6 per dimension; VEGAS B in {2,3,4,5,8}: uniform, all strictly increasing eighth-lattice grids (B<=4) and all grids reached by BFS over real adaptation (4 adapting integrands x alpha in {0,0.5,1.5,3}, depth 3), lattices B x {1,2,3}, d=1 all grids, d=2 products of a subset; MULTI-CHANNEL C<=3 channels with splits 1/4,1/2,3/4: every composition of 8 into weights incl. zeros (sentinel density 1e30 in disabled channels), normalised / through the checkpoint constructor / unnormalised x3 / with an integrand that reads point.weight() itself / with a channel map that keeps state between its two requests / with a map that fills the densities together with the coordinates, jacobian in {1,2,1/4,1+y}, d<=2, lattice 12^d x 8; adapted weights reached by BFS over real refinement (3 integrands x beta x min, depth 3) in stratified form; all multilinear integrands over {1, y, 2-3y, -1+4y}; 3 types"},
         "thorough": {"shards": 3, "deadline_s": 1800, "bounds": "as quick with adaptation depth 5 (grids) / 4 (weights), d=3 VEGAS products and eighth-split channel maps on an 840-point lattice"},
     },
     "rule": "nested enumeration of (grid | weight vector, lattice, integrand); the lattice engine makes one iteration visit every cell of the discretised cube (and every eighth of the channel-selection interval) exactly once; non-trivial = non-uniform grid, zero weight or non-unit jacobian; distinct = distinct cases; states/transitions count the adaptation BFS that produces the reachable grids and weights",
